@@ -41,7 +41,7 @@
  "unwind_reason": "count == 1 in this unit: one iteration, unwinding assertion on; CACHE_SIZE is the constant 8; 64 serves the DFCC library loops over assigns targets",
  "defines": ["CFG_BS=16", "CFG_COUNT=1", "CFG_NO_PTHREAD"],
  "functions": ["lib/ext2fs/unix_io.c:unix_write_blk64"],
- "assumes": ["IO_FLAG_THREADS clear; built without HAVE_PTHREAD (see proofs/unixio/config.h)", "no write_error handler installed", "block size 16 (configuration bound, see unix_write_blk64_c1_1k for 1024)", "fewer than 2^31-512 cache accesses per channel (int access clock)", "caller's buffer does not alias a cache buffer", "block numbers below 2^46, 0 <= data->offset < 2^50", "CHANNEL_FLAGS_WRITETHROUGH is set before any block is dirtied (nothing in the tree toggles it)"],
+ "assumes": ["IO_FLAG_THREADS clear; built without HAVE_PTHREAD (see proofs/unixio/config.h)", "no write_error handler installed", "block size 16 (configuration bound, see unix_write_blk64_c1_1k for 1024)", "fewer than 2^31-512 cache accesses per channel (int access clock)", "caller's buffer does not alias a cache buffer", "block numbers below 2^46, 0 <= data->offset < 2^50", "CHANNEL_FLAGS_WRITETHROUGH is set before any block is dirtied (nothing in the tree toggles it)", "WIP BECAUSE OF A GENUINE DEFECT of the pinned tree: postcondition.1/.3 fail (error of a failed eviction swallowed), findings/C17_write_blk_swallow; passes with its proposed-fix.patch"],
  "backend": "cadical",
  "timeout": 400,
  "native": false
@@ -61,7 +61,7 @@
  "unwind_reason": "count == 1 in this unit: one iteration, unwinding assertion on; CACHE_SIZE is the constant 8",
  "defines": ["CFG_BS=1024", "CFG_COUNT=1", "CFG_NO_PTHREAD"],
  "functions": ["lib/ext2fs/unix_io.c:unix_write_blk64"],
- "assumes": ["as unix_write_blk64_c1, block size 1024"],
+ "assumes": ["as unix_write_blk64_c1, block size 1024 (fails on the pinned tree for the same defect; passes with the fix, ~12 min: thorough)"],
  "backend": "cadical",
  "timeout": 600,
  "native": false
@@ -81,7 +81,7 @@
  "unwind_reason": "count == 2 in this unit: two iterations, unwinding assertion on; CACHE_SIZE is the constant 8",
  "defines": ["CFG_BS=16", "CFG_COUNT=2", "CFG_NO_PTHREAD"],
  "functions": ["lib/ext2fs/unix_io.c:unix_write_blk64"],
- "assumes": ["as unix_write_blk64_c1; two-block requests only (three and four blocks, the other cached sizes, do not finish)"],
+ "assumes": ["as unix_write_blk64_c1; two-block requests only (three and four blocks, the other cached sizes, do not finish); fails on the pinned tree for the same defect; passes with the fix, ~11 min: thorough"],
  "backend": "cadical",
  "timeout": 900,
  "native": false
@@ -92,7 +92,7 @@
  "name": "unix_write_blk64_direct",
  "props": ["C17"],
  "level": "U",
- "tier": "wip",
+ "tier": "quick",
  "harness": "h_write_direct",
  "enforce": ["unix_write_blk64"],
  "replace": ["reuse_cache", "flush_cached_blocks", "raw_write_blk"],
@@ -112,7 +112,7 @@
  "name": "unix_read_blk64_c1",
  "props": ["C17"],
  "level": "U",
- "tier": "wip",
+ "tier": "quick",
  "harness": "h_read_cached",
  "enforce": ["unix_read_blk64"],
  "replace": ["reuse_cache", "flush_cached_blocks", "raw_write_blk", "raw_read_blk"],
@@ -132,7 +132,7 @@
  "name": "unix_read_blk64_direct",
  "props": ["C17"],
  "level": "U",
- "tier": "wip",
+ "tier": "quick",
  "harness": "h_read_direct",
  "enforce": ["unix_read_blk64"],
  "replace": ["reuse_cache", "flush_cached_blocks", "raw_write_blk", "raw_read_blk"],
